@@ -7,7 +7,13 @@ V: real GlobalHierarchicalModel fits (2-D / 3-D structures, three slicers, MLE a
    observed through recording wrappers around IntervalSlicer.slice_, Distribution.fit and
    DependenceFunction.fit, projected to the lattice of SlicingOps and judged by
    spec/Trace_C09.tla: interval membership, stand-alone equality, dependence-fit inputs,
-   per-dimension options, permutation invariance, re-fit.
+   per-dimension options, permutation invariance, re-fit.  Independent references (never virocon's own
+   code): the closed-form double-precision MLE of the normal / log-normal family from the float64 copy of
+   exactly the interval's observations (the data matrix is also given as float32 / int64 / int16 / uint8 /
+   int8 / float16 with values that every one of these types holds exactly), and the closed-form
+   (weighted) least-squares solution sum(w_i r_i^2) -> min of every linear-in-parameters dependence
+   function for the recorded (interval reference value, estimate) pairs (weights callable with and
+   without bounds).
 """
 import copy
 import warnings
@@ -23,6 +29,40 @@ LEVEL = "model_checking"
 # --------------------------------------------------------------------------- structures
 
 
+def _lin2(x, a, b):
+    return a + b * x
+
+
+def _quad3(x, a, b, c):
+    return a + b * x + c * x**2
+
+
+# linear-in-parameters shapes: name -> (func, columns of the design matrix)
+LINEAR_SHAPES = {
+    "lin2": (_lin2, lambda x: np.column_stack([np.ones_like(x), x])),
+    "quad3": (_quad3, lambda x: np.column_stack([np.ones_like(x), x, x**2])),
+}
+# weights callables of DependenceFunction(weights=...): (x, y) -> one positive weight per pair
+DEP_WEIGHTS = {
+    "wx": lambda x, y: 0.2 + x**2,            # the intervals of high conditioning values count more
+    "wy": lambda x, y: 0.1 + np.abs(y),       # "lambda x, y: y" of the docstring, kept positive
+}
+# bounds that the least-squares solution of the generating laws of gen_data does not touch (an upper bound 0 is falsy)
+DEP_BOUNDS = {
+    "bpos": [(0, None), (0, None)],
+    "bneg": [(0, None), (None, 0)],
+    "bfree3": [(None, None), (None, None), (None, None)],
+}
+
+
+def parse_dep(f):
+    """'shape[/weights[/bounds]]' -> (shape, weights kind or None, bounds kind or None); linear shapes only"""
+    parts = (f.split("/") + ["", ""])[:3]
+    if parts[0] not in LINEAR_SHAPES:
+        return None
+    return parts[0], (parts[1] or None), (parts[2] or None)
+
+
 def dep_funcs(vc):
     def power3(x, a, b, c):
         return a + b * x**c
@@ -30,17 +70,67 @@ def dep_funcs(vc):
     def exp3(x, a=0.1, b=0.2, c=-0.3):
         return a + b * np.exp(c * x)
 
-    def lin2(x, a, b):
-        return a + b * x
-
     def chain2(x, a, b, d_of_x):
         # a dependence function that takes ANOTHER one as parameter (as alpha(beta) of the OMAE2020 V-Hs model)
         return (a + b * x) / 1.5 ** (1.0 / d_of_x(x))
 
     B3 = [(0, None), (0, None), (None, None)]
     DF = vc.DependenceFunction
-    return dict(power3=lambda: DF(power3, B3), exp3=lambda: DF(exp3, B3), lin2=lambda: DF(lin2),
+    return dict(power3=lambda: DF(power3, B3), exp3=lambda: DF(exp3, B3),
                 chain2=lambda inner: DF(chain2, [(0, None), (0, None)], d_of_x=inner))
+
+
+def make_dep(vc, D, f):
+    """fresh DependenceFunction of the dependence spec f (a key of dep_funcs or 'shape[/weights[/bounds]]')"""
+    lin = parse_dep(f)
+    if lin is None:
+        return D[f]()
+    shape, wk, bk = lin
+    kw = {}
+    if wk is not None:
+        kw["weights"] = DEP_WEIGHTS[wk]
+    if bk is not None:
+        kw["bounds"] = copy.deepcopy(DEP_BOUNDS[bk])
+    return vc.DependenceFunction(LINEAR_SHAPES[shape][0], **kw)
+
+
+def linear_reference(f, x, y):
+    """closed-form solution of sum(w_i * (f(x_i) - y_i)**2) -> min for a linear-in-parameters dependence spec f and
+    the pairs (x, y), w = weights(x, y) (1 without weights): numpy lstsq on the sqrt(w)-scaled rows.  None when the
+    spec is not linear, the pairs do not determine the parameters, or the solution is not strictly inside the bounds
+    (then the bounded optimum is another point and nothing is judged)."""
+    lin = parse_dep(f)
+    if lin is None:
+        return None
+    shape, wk, bk = lin
+    x = np.asarray(x, dtype=np.float64)
+    y = np.asarray(y, dtype=np.float64)
+    if not (np.all(np.isfinite(x)) and np.all(np.isfinite(y))):
+        return None
+    A = LINEAR_SHAPES[shape][1](x)
+    if len(x) < A.shape[1] or len(np.unique(x)) < A.shape[1]:
+        return None
+    w = np.ones_like(x) if wk is None else np.asarray(DEP_WEIGHTS[wk](x, y), dtype=np.float64)
+    sw = np.sqrt(w)
+    sol, _, rank, _ = np.linalg.lstsq(A * sw[:, None], y * sw, rcond=None)
+    if rank < A.shape[1]:
+        return None
+    if bk is not None:
+        for v, (lo, hi) in zip(sol, DEP_BOUNDS[bk]):
+            m = 1e-3 * (abs(v) + 1e-3)
+            if (lo is not None and v < lo + m) or (hi is not None and v > hi - m):
+                return None
+    return sol
+
+
+def closed_form_mle(fam, obs):
+    """maximum-likelihood (mu, sigma) of the normal / log-normal family in double precision: mean and root mean
+    square deviation of the (logarithms of the) observations"""
+    z = np.asarray(obs, dtype=np.float64)
+    if fam == "lognormal":
+        z = np.log(z)
+    mu = float(np.mean(z))
+    return [mu, float(np.sqrt(np.mean((z - mu) ** 2)))]
 
 
 def _vrange(spec):
@@ -85,7 +175,7 @@ def build_model(vc, st):
             desc["conditional_on"] = d["cond"]
             # "chain:<q>": the function of this parameter takes the function of parameter q as its parameter; the
             # dict keeps the declared order (a dependent may be declared, and hence fitted, BEFORE its conditioner)
-            plain = {p: D[f]() for p, f in d["deps"].items() if not f.startswith("chain:")}
+            plain = {p: make_dep(vc, D, f) for p, f in d["deps"].items() if not f.startswith("chain:")}
             desc["parameters"] = {p: (plain[p] if p in plain else D["chain2"](plain[f.split(":")[1]])) for p, f in d["deps"].items()}
         descs.append(desc)
     return vc.GlobalHierarchicalModel(descs)
@@ -101,6 +191,11 @@ def structures(rng):
     ew2 = dict(fam="expweibull", kw={"f_delta": 3}, deps={"alpha": "power3", "beta": "lin2"})
     nrm = dict(fam="normal", deps={"mu": "lin2", "sigma": "lin2"})
     ewc = dict(fam="expweibull", kw={"f_delta": 3}, deps={"alpha": "chain:beta", "beta": "lin2"})
+    # dependence functions with a weights callable, declared without and with bounds (shape/weights/bounds)
+    nrm_w = dict(fam="normal", deps={"mu": "lin2/wx", "sigma": "lin2/wy"})
+    nrm_wb = dict(fam="normal", deps={"mu": "lin2/wx/bpos", "sigma": "lin2/wy/bneg"})
+    ln_w = dict(fam="lognormal", deps={"mu": "lin2/wx", "sigma": "lin2/wy"})
+    ln_q = dict(fam="lognormal", deps={"mu": "quad3/wy", "sigma": "quad3/wx/bfree3"})
     out = [
         dict(name="weibull|lognormal width0.5", units=["0.1", None],
              dims=[dict(fam="weibull", slicer=W("0.5", 30)), dict(ln, cond=0)], fitdesc=None),
@@ -147,13 +242,60 @@ def structures(rng):
         dict(name="weibull|weibull points tied|normal chain 3D", units=["0.1", "0.1", None],
              dims=[dict(fam="weibull", slicer=Nn(8, 20)), dict(wb2, cond=0, slicer=P(int(rng.integers(50, 120)), 30, lastfull=False)),
                    dict(nrm, cond=1)], fitdesc=None),
+        dict(name="weibull|normal width0.5 weighted dependence no bounds", units=["0.1", None],
+             dims=[dict(fam="weibull", slicer=W("0.5", 20)), dict(nrm_w, cond=0)], fitdesc=None),
+        dict(name="weibull|normal number8 weighted dependence inactive bounds", units=["0.1", None],
+             dims=[dict(fam="weibull", slicer=Nn(8, 15)), dict(nrm_wb, cond=0)], fitdesc=None),
+        dict(name="weibull|lognormal width0.5 weighted quadratic dependence", units=["0.1", None],
+             dims=[dict(fam="weibull", slicer=W("0.5", 20)), dict(ln_q, cond=0)], fitdesc=[{"method": "mle"}, None]),
+        # integer-valued observations 1..120 (exact in float64 / float32 / int64 / int16 / uint8 / int8 / float16):
+        # one case per type of the data matrix (INT_DTYPES)
+        dict(name="weibull|lognormal|normal fan 3D integer data", units=["1", None, None], intdata=True,
+             dims=[dict(fam="weibull", slicer=W("8", 30)), dict(ln_w, cond=0), dict(nrm_wb, cond=0)], fitdesc=None),
     ]
     return out
+
+
+INT_DTYPES = ("float64", "float32", "int64", "int16", "uint8", "int8", "float16")
+
+
+def gen_intdata(st, n, rng):
+    """integer-valued observations in 1..120 (fan structure on column 0), as float64"""
+    nd = len(st["dims"])
+    X = np.empty((n, nd))
+    X[:, 0] = np.clip(np.ceil(22.0 * rng.weibull(1.5, n)), 1, 120)
+    g = X[:, 0]
+    for i in range(1, nd):
+        if st["dims"][i]["cond"] != 0:
+            raise Machinery("integer data are generated for fan structures only")
+        if st["dims"][i]["fam"] == "lognormal":
+            v = np.exp(3.0 + 0.03 * np.sqrt(g) + (0.25 - 0.001 * g) * rng.standard_normal(n))
+        else:
+            v = 30.0 + 0.5 * g + (14.0 - 0.08 * g) * rng.standard_normal(n)
+        X[:, i] = np.clip(np.round(v), 1, 120)
+    return X, {0: X[:, 0].astype(int)}
+
+
+def typed(case, X):
+    """the data matrix in the type of the case; the values are the same numbers"""
+    dt = case.get("dtype", "float64")
+    if dt == "float64":
+        return X
+    T = X.astype(np.dtype(dt))
+    if not np.array_equal(T.astype(np.float64), X):
+        raise Machinery(f"values are not exactly representable as {dt}")
+    return T
 
 
 def gen_data(st, n, rng, style):
     """Data from a fixed generating law of the right structure; conditioning columns on the lattice."""
     nd = len(st["dims"])
+    if st.get("intdata"):
+        X, ks = gen_intdata(st, n, rng)
+        if style == "sorted":
+            order = np.argsort(X[:, 0], kind="stable")
+            X, ks = X[order], {c: k[order] for c, k in ks.items()}
+        return X, ks
     X = np.empty((n, nd))
     X[:, 0] = 0.6 + 2.2 * rng.weibull(1.6, n)
     for i in range(1, nd):
@@ -281,7 +423,8 @@ def reldev(a, b):
 def dim_records(vc, case, rid0):
     st, n, seed = case["st"], case["n"], case["seed"]
     rng = np.random.default_rng(seed)
-    data, ks = gen_data(st, n, rng, case["style"])
+    data64, ks = gen_data(st, n, rng, case["style"])      # the observations (float64)
+    data = typed(case, data64)                            # ... as handed to fit
     fitdesc = st["fitdesc"]
     nd = len(st["dims"])
     recs = []
@@ -291,6 +434,7 @@ def dim_records(vc, case, rid0):
         perm = rng.permutation(n)
         m2, r2 = fit_observed(vc, st, data[perm], fitdesc)
         other, _ = gen_data(st, max(300, n // 2), np.random.default_rng(seed + 1), "shuffled")
+        other = typed(case, other)
         m3 = build_model(vc, st)
         with warnings.catch_warnings():
             warnings.simplefilter("ignore")
@@ -323,7 +467,7 @@ def dim_records(vc, case, rid0):
         _, col3, (masks3, _, _) = r3.slices[si]
         fd = fitdesc[i] if fitdesc is not None and fitdesc[i] is not None else {"method": "mle", "weights": None}
         method, weights = fd["method"], fd.get("weights")
-        rec = dict(base, id=rid, kind="dim", kind2=sl["kind"], ropen=sl.get("ropen", True), incmax=sl.get("incmax", True),
+        rec = dict(base, id=rid, kind="dim", dim=i, kind2=sl["kind"], ropen=sl.get("ropen", True), incmax=sl.get("incmax", True),
                    n=sl.get("n", 1), lastfull=sl.get("lastfull", True), minpts=sl["minpts"], refkind=sl.get("ref", "center"),
                    method=method)
         if sl["kind"] == "points":
@@ -347,7 +491,7 @@ def dim_records(vc, case, rid0):
         else:
             rec.update(upw=1, lo=0, hi=int(k.max()), cdata=[int(v) for v in k], exact=True)
             unitf = float(Decimal(unit)) / (4096 if (unit == "0.001" and st.get("untied")) else 1)
-        if not np.array_equal(col, data[:, c]):
+        if not np.array_equal(np.asarray(col, dtype=np.float64), data64[:, c]):
             rec["exc"] = "slicer received a different column than data[:, conditional_on]"
         rec["masks"] = [[int(b) for b in np.asarray(m).astype(int)] for m in masks]
         onlat = True
@@ -381,6 +525,16 @@ def dim_records(vc, case, rid0):
                 d0.fit(np.asarray(di[t]), method, wt)
             sa.append(bool(d0.parameters == cd1.parameters_per_interval[t]))
         rec["standalone"] = sa
+        # ... and, for the families whose maximum-likelihood estimate is a closed form, the exact MLE (double
+        # precision, computed here) of exactly the observations of the interval, whatever the type of the matrix
+        fam = st["dims"][i]["fam"]
+        mledev = []
+        if fam in ("normal", "lognormal") and method == "mle":
+            for t in range(min(len(masks), len(cd1.parameters_per_interval))):
+                p_ = cd1.parameters_per_interval[t]
+                ref_ = closed_form_mle(fam, data64[np.asarray(masks[t], bool), i])
+                mledev.append(Qc(reldev([float(p_["mu"]), float(p_["sigma"])], ref_), 1e9, 0, 2 * 10**9))
+        rec["mledev"] = mledev
         ncalls[i] = len(masks)
         # dependence function inputs
         ndep = len(st["dims"][i]["deps"])
@@ -396,6 +550,23 @@ def dim_records(vc, case, rid0):
                 all(float(y[t]) == float(cd1.parameters_per_interval[t][pn[0]]) for t in range(len(y)))
             depyok.append(bool(ok))
         rec.update(depx=depx, depyok=depyok)
+        # linear-in-parameters dependence functions: the fitted parameters against the closed-form (weighted)
+        # least-squares solution for the (interval reference value, estimate) pairs of this fit
+        wdepdev, wdepsep = [], []
+        xs64 = np.asarray([float(v) for v in refs], dtype=np.float64)
+        for pn, f in st["dims"][i]["deps"].items():
+            ys64 = np.asarray([float(p_[pn]) for p_ in cd1.parameters_per_interval], dtype=np.float64)
+            if len(ys64) != len(xs64):
+                continue
+            sol = linear_reference(f, xs64, ys64)
+            if sol is None:
+                continue
+            got = [float(v) for v in cd1.conditional_parameters[pn].parameters.values()]
+            wdepdev.append(Qc(reldev(got, sol), 1e9, 0, 2 * 10**9))
+            if parse_dep(f)[1] is not None:
+                # how far the unweighted solution is from the weighted one (the case tells them apart)
+                wdepsep.append(Qc(reldev(linear_reference(f.split("/")[0], xs64, ys64), sol), 1e9, 0, 2 * 10**9))
+        rec.update(wdepdev=wdepdev, wdepsep=wdepsep)
         # membership as row ids; permuted and re-fitted models
         rec["members"] = [[int(j) for j in np.nonzero(np.asarray(m, bool))[0]] for m in masks]
         rec["permmembers"] = [sorted(int(perm[j]) for j in np.nonzero(np.asarray(m, bool))[0]) for m in masks2]
@@ -448,24 +619,43 @@ def gen_cases(ctx):
             for d in st["dims"]:
                 if d.get("slicer", {}).get("kind") == "points":
                     n = max(n, 8 * d["slicer"]["n"])
+            if st.get("intdata"):
+                for di, dt in enumerate(INT_DTYPES):
+                    n = int(rng.choice([500, 800, 1200] if ctx.quick else [500, 1500, 5000, 20000]))
+                    out.append(dict(st=st, si=si, n=n, style=["shuffled", "sorted"][(rep + di) % 2], seed=int(rng.integers(0, 2**31)),
+                                    dtype=dt))
+                continue
             out.append(dict(st=st, si=si, n=n, style=["shuffled", "sorted"][(rep + si) % 2], seed=int(rng.integers(0, 2**31))))
     return out
 
 
+def case_id(c):
+    """what identifies a case (everything but the structure dict, which structures() rebuilds from si)"""
+    return {k: c[k] for k in ("si", "n", "style", "seed", "dtype") if k in c}
+
+
 def key_of(c):
-    return f"structure={c['st']['name']} n={c['n']} order={c['style']} seed={c['seed']}"
+    return (f"structure={c['st']['name']} n={c['n']} order={c['style']} seed={c['seed']}"
+            + (f" dtype={c['dtype']}" if "dtype" in c else ""))
 
 
 def run(ctx):
     vc = import_virocon()
-    ctx.rule = ("13 model structures (2-D/3-D; chain and fan; width / number / points slicers with option variants; MLE and WLSQ; "
-                "fit descriptions None / partial) x data sizes x sorted/shuffled rows with conditioning values rounded to a lattice "
-                "(ties); each case = fit, fit of row-permuted data, fit-other-then-refit; distinct = (structure, n, order, seed); "
-                "one record per conditional dimension plus one per model")
+    ctx.rule = ("20 model structures (2-D/3-D; chain and fan; width / number / points slicers with option variants; MLE and WLSQ; "
+                "fit descriptions None / partial; dependence functions with a weights callable declared with and without bounds) "
+                "x data sizes x sorted/shuffled rows with conditioning values rounded to a lattice "
+                "(ties); one structure with integer observations 1..120 x type of the data matrix (float64, float32, int64, int16, "
+                "uint8, int8, float16); each case = fit, fit of row-permuted data, fit-other-then-refit; "
+                "distinct = (structure, n, order, seed, dtype); one record per conditional dimension plus one per model")
     ctx.trusted = ["TLC evaluating SlicingOps / Trace_C09", "recording wrappers around IntervalSlicer.slice_, Distribution.fit, "
-                   "DependenceFunction.fit installed by the harness (the masks are bound to the fitted data by FitDataAreMaskedRows)"]
+                   "DependenceFunction.fit installed by the harness (the masks are bound to the fitted data by FitDataAreMaskedRows)",
+                   "numpy float64 mean / log / sqrt / linalg.lstsq (closed-form MLE of the normal and log-normal family; "
+                   "weighted least squares of linear-in-parameters dependence functions on sqrt(w)-scaled rows)"]
     ctx.assumptions = ["MLE estimates of permuted data are compared at 2e-3 relative (Nelder-Mead tolerance), least-squares estimates at 1e-6",
-                       "a conditioning value on an ideal interval edge may belong to either neighbour for non-dyadic widths"]
+                       "a conditioning value on an ideal interval edge may belong to either neighbour for non-dyadic widths",
+                       "the weights callable of a DependenceFunction weights the squared residuals: sum(w_i * (f(x_i) - y_i)**2) "
+                       "(documented meaning), whether or not bounds are declared; a dependence function whose closed-form optimum "
+                       "touches its bounds is not judged against it"]
     ctx.model_check("JointFit", "MC_JointFit_quick.cfg", must_cover=("FitDim",), timeout=3000)
     ctx.model_check("JointFit", ctx.pick("MC_JointFit_3d.cfg", "MC_JointFit_thorough.cfg"), timeout=3000)
     if not ctx.quick:
@@ -481,7 +671,16 @@ def run(ctx):
             owner[r["id"]] = c
         allrecs.extend(recs)
         rid += k
-    failing = ctx.validate("Trace_C09", "Trace_C09.cfg", allrecs, xss="512m", chunk=60)
+    # self-test of the two reference clauses: a copy of a judged record, one deviation just beyond its tolerance each
+    src = next((r for r in allrecs if r["kind"] == "dim" and r["exc"] == "" and r["mledev"] and r["wdepdev"]), None)
+    probe = []
+    if src is not None:
+        probe = [dict(src, id=rid, mledev=[1001] + src["mledev"][1:], wdepdev=src["wdepdev"][:-1] + [100001])]
+    failing = ctx.validate("Trace_C09", "Trace_C09.cfg", allrecs + probe, xss="512m", chunk=ctx.pick(80, 60))
+    if probe:
+        got = set(failing.pop(rid, []))
+        if not {"EstimateIsClosedFormMLE", "DependenceIsWeightedLeastSquares"} <= got:
+            raise Machinery(f"self-test: the corrupted record was rejected for {sorted(got)} only")
     for r in allrecs:
         c = owner[r["id"]]
         ctx.case(key_of(c) + f" rec={r['kind']}{r['id']}", nontrivial=(r["exc"] == "" and not r.get("skipped")))
@@ -489,22 +688,33 @@ def run(ctx):
             extra = ""
             if r["kind"] == "dim":
                 extra = (f" slicer={r['kind2']} K={len(r['masks'])} permestdev={r['permestdev']} permdepdev={r['permdepdev']} "
-                         f"refitdepdev={r['refitdepdev']} standalone={r['standalone']} datamasked={r['datamasked']}")
-            ctx.violation(clause, key_of(c) + (f" slicer={r['kind2']}" if r["kind"] == "dim" else " model"),
-                          f"exc={r['exc']}{extra}", replay=dict(si=c["si"], n=c["n"], style=c["style"], seed=c["seed"]))
+                         f"refitdepdev={r['refitdepdev']} standalone={r['standalone']} datamasked={r['datamasked']} "
+                         f"mledev={r['mledev']} wdepdev={r['wdepdev']} wdepsep={r['wdepsep']}")
+            ctx.violation(clause, key_of(c) + (f" dim={r['dim']} slicer={r['kind2']}" if r["kind"] == "dim" else " model"),
+                          f"exc={r['exc']}{extra}", replay=case_id(c))
     d0 = next(r for r in allrecs if r["kind"] == "dim")
     ctx.sample({"case": key_of(owner[d0["id"]]), "dim_record": {k: (v if not isinstance(v, list) or len(str(v)) < 300 else str(v)[:300] + "...")
                                                                     for k, v in d0.items()}})
     ctx.sample({"model_record": next(r for r in allrecs if r["kind"] == "model")})
     ctx.notes["model_fits"] = 4 * len(cases)
     ctx.notes["dimension_records"] = sum(1 for r in allrecs if r["kind"] == "dim")
+    dims = [r for r in allrecs if r["kind"] == "dim" and r["exc"] == ""]
+    ctx.notes["closed_form_mle_intervals"] = sum(len(r["mledev"]) for r in dims)
+    ctx.notes["closed_form_mle_intervals_by_dtype"] = {
+        dt: sum(len(r["mledev"]) for r in dims if owner[r["id"]].get("dtype") == dt) for dt in INT_DTYPES}
+    ctx.notes["linear_dependence_fits_judged"] = sum(len(r["wdepdev"]) for r in dims)
+    ctx.notes["weighted_dependence_fits_judged"] = sum(len(r["wdepsep"]) for r in dims)
+    # vacuity: the weighted cases tell the weighted from the unweighted solution (100 x the tolerance of the clause)
+    ctx.notes["weighted_dependence_fits_separating"] = sum(1 for r in dims for v in r["wdepsep"] if v > 100 * 100000)
+    if not ctx.violations and (ctx.notes["weighted_dependence_fits_separating"] < 6 or ctx.notes["closed_form_mle_intervals"] < 50):
+        raise Machinery("vacuous: too few weighted dependence fits that differ from the unweighted solution / closed-form MLE intervals")
 
 
 def replay(ctx, case):
     vc = import_virocon()
     c = case["case"]
     st = structures(np.random.default_rng(ctx.seed + 9))[c["si"]]
-    cc = dict(st=st, si=c["si"], n=c["n"], style=c["style"], seed=c["seed"])
+    cc = dict(case_id(c), st=st)
     recs, _ = dim_records(vc, cc, 1)
     failing = ctx.validate("Trace_C09", "Trace_C09.cfg", recs, xss="512m")
     for r in recs:
